@@ -19,7 +19,13 @@ def bounded(tier, seed):
     except ImportError:
         return []
     n = 12
-    return [Bounded("C01/rc-route-validity[%d/%d]" % (i, n), p_C01.run, tier=tier, seed=seed, chunk=i, nchunks=n) for i in range(n)]
+    out = [Bounded("C01/rc-route-validity[%d/%d]" % (i, n), p_C01.run, tier=tier, seed=seed, chunk=i, nchunks=n) for i in range(n)]
+    try:        # encoder side of the decoder's precondition, for all solver outcomes per instance
+        from symmilp import s_C01
+        out += [Bounded("C01/symmilp-decoder-precondition[%d/4]" % i, s_C01.run, tier=tier, seed=seed, chunk=i, nchunks=4) for i in range(4)]
+    except ImportError:
+        pass
+    return out
 
 
 MANIFEST = dict(
